@@ -6,7 +6,7 @@ from .. import inputs
 from . import geom
 
 SPEC = dict(
-    lean_modules=['SmVerif.Props.C04'],
+    lean_modules=['SmVerif.Props.C04', 'SmVerif.Props.Delegation'],
     groups=['Quaternions', 'Quats', 'Poses'],
     expected_untranslatable=('UQ_interp', 'UQ_interp_shortest'),
     partial=['r2q branches are proved per branch under the branch condition; twist and dual-quaternion routes are explored'],
